@@ -229,8 +229,13 @@ def check(prop, tier):
                 if not (res.get("reached") or {}).get(lbl):
                     inconclusive.append(f"{run['harness']}: vacuity guard: label {lbl!r} never reached")
             for v in res.get("violations") or []:
-                out = rp.run(run["harness"], v["model"], v["choices"], known_keys, run_cfg(prop, run))
-                ok = classify_replay(out, v)
+                ok = False
+                # schedule-dependent properties (map iteration order) are replayed several times natively
+                for _ in range(1 + cfg.get("replay_retries", 0)):
+                    out = rp.run(run["harness"], v["model"], v["choices"], known_keys, run_cfg(prop, run))
+                    ok = classify_replay(out, v)
+                    if ok:
+                        break
                 v["confirmed"] = ok
                 v["replay_out"] = out[-1500:]
                 if ok:
